@@ -63,6 +63,11 @@ read as strftime; a loop domain built by a helper (`xs = []; for r in roots: xs 
 equivalent comprehension (`builder_comprehension`); a per-task list of sources filled first and consumed by one emitting loop is
 fused into the producer sites (`Canon.fuse`).
 
+Round 6: a local that is a pure alias of an earlier local (`m = m__i2` after a spliced helper) is renamed away
+(`Canon.alias_locals`); every `.replace(a, b)` applied to the json.dumps result must keep it JSON (b is a JSON spelling of a:
+`<\\/`, `\\u003c`; `\\!`, `\\'` or `&lt;` are refuted); a section map built as `{k: list(v) for k, v in groupby(<unsorted tasks>)}`
+is refuted (later runs of a section overwrite earlier ones).
+
 Engine limitations worked around here (helpers below, nothing under sa/ was changed): string-building normalisation (`parts`),
 inlining of multi-statement single-return helpers (`deep`), path enumeration with event counts (`paths`, DESIGN 3.7 is not in
 sa/), structural loop nesting (`loop_chains`), accumulator recognition (`Acc`), a propositional evaluator for branch conditions,
@@ -803,7 +808,44 @@ class Canon:
         return ast.copy_location(st, at)
 
     # ------------------------------------------------------------------ driver
+    def alias_locals(self):
+        """`a = b` as a statement of some block, b a local that occurs only in the statements of that block before it and a only
+        in those after it (the shape left by a spliced helper: `m__i2 = {}; ...; m = m__i2`): a is renamed to b and the
+        assignment dropped"""
+        params = {x.arg for x in self.node.args.posonlyargs + self.node.args.args + self.node.args.kwonlyargs}
+        if any(isinstance(n, (ast.Global, ast.Nonlocal, ast.Lambda)) or (isinstance(n, ast.FunctionDef) and n is not self.node)
+               for n in ast.walk(self.node)):
+            return
+        again = True
+        while again:
+            again = False
+            every = [n for n in ast.walk(self.node) if isinstance(n, ast.Name)]
+            for body, i in list(_blocks(self.node).values()):
+                st = body[i]
+                if not (isinstance(st, ast.Assign) and len(st.targets) == 1 and isinstance(st.targets[0], ast.Name) and
+                        isinstance(st.value, ast.Name)):
+                    continue
+                a, b = st.targets[0].id, st.value.id
+                if a == b or a in params or b in params:
+                    continue
+                before = {id(n) for s_ in body[:i] for n in ast.walk(s_)}
+                after = {id(n) for s_ in body[i + 1:] for n in ast.walk(s_)}
+                occ_a = [n for n in every if n.id == a and n is not st.targets[0]]
+                occ_b = [n for n in every if n.id == b and n is not st.value]
+                if not occ_b or any(id(n) not in before for n in occ_b) or any(id(n) not in after for n in occ_a):
+                    continue
+                if not any(isinstance(n.ctx, ast.Store) for n in occ_b) or any(isinstance(n.ctx, ast.Store) for n in occ_a):
+                    continue
+                for n in occ_a:
+                    n.id = b
+                del body[i]
+                if not body:
+                    body.append(ast.copy_location(ast.Pass(), st))
+                self.touched = again = True
+                break
+
     def run(self) -> Func:
+        self.alias_locals()
         self.return_expression()
         for _ in range(10):
             self.changed = False
@@ -1899,6 +1941,20 @@ def check_partition(ctx, o, G: Gantt, M: str, reader: ast.For) -> bool:
     if other:
         raise Und(f, other[0], f"{M}: other use", f"the section map `{M}` is also used in a way the rule does not model "
                                                   f"(`{src(stmt_of(f.node, other[0]) or other[0])[:70]}`)")
+    if len(inits) == 1 and isinstance(inits[0].value, ast.DictComp) and len(inits[0].value.generators) == 1:
+        gi = inits[0].value.generators[0].iter
+        is_groupby = isinstance(gi, ast.Call) and gi.args and (
+            (f.module.imports.get('groupby') == 'itertools.groupby' and match("groupby", gi.func)) or
+            (f.module.imports.get('itertools') == 'itertools' and match("itertools.groupby", gi.func)))
+        if is_groupby:
+            arg = deep(ctx, f, gi.args[0], flow_of(f).node_of_expr(gi.args[0]))
+            if isinstance(arg, ast.Call) and isinstance(arg.func, ast.Name) and arg.func.id == 'sorted':
+                raise Und(f, inits[0], inits[0], "sections built with itertools.groupby over a sorted copy of the tasks")
+            o.refute(f, inits[0], f"{M} = {{.. groupby({src(arg)[:30]}) ..}}",
+                     f"the section map is a dict built from itertools.groupby over `{src(arg)[:50]}`, which is not sorted by section: "
+                     f"groupby only groups *consecutive* tasks, so a later run of the same section overwrites the earlier one and "
+                     f"the earlier tasks get no task line (expected one setdefault(section, []).append(task) per task)")
+            return False
     ddict = len(inits) == 1 and (
         (f.module.imports.get('defaultdict') == 'collections.defaultdict' and match("defaultdict(list)", inits[0].value)) or
         (f.module.imports.get('collections') == 'collections' and match("collections.defaultdict(list)", inits[0].value)))
@@ -2875,6 +2931,27 @@ def check_dhtmlx(ctx, O):
         return
     A, B = items['data'].id, items['links'].id
     oj.site(f, ret, f"payload = json.dumps({{'data': {A}, 'links': {B}}})")
+
+    # ---- every rewrite of the json.dumps result must keep it JSON: the replacement is a JSON spelling of the replaced text
+    import json as _json
+    for a_, b_ in chain:
+        try:
+            raw_a = _json.loads('"' + a_ + '"')
+        except ValueError:
+            raw_a = a_
+        try:
+            same_text = _json.loads('"' + b_ + '"') == raw_a
+        except ValueError:
+            bad_esc = re.search(r'\\(?!["\\/bfnrt]|u[0-9a-fA-F]{4})(.?)', b_)
+            oj.refute(f, ret, f"json.dumps(..).replace({a_!r}, {b_!r})",
+                      f"`.replace({a_!r}, {b_!r})` on the json.dumps result writes "
+                      f"{('`' + chr(92) + bad_esc.group(1) + '`, which is not a JSON escape') if bad_esc else 'text that is not a JSON string fragment'}"
+                      f" (JSON allows only \\\" \\\\ \\/ \\b \\f \\n \\r \\t \\uXXXX): the embedded data is no longer well-formed JSON")
+            continue
+        if not same_text:
+            oj.refute(f, ret, f"json.dumps(..).replace({a_!r}, {b_!r})",
+                      f"`.replace({a_!r}, {b_!r})` on the json.dumps result changes the text itself ({a_!r} becomes "
+                      f"{_json.loads(chr(34) + b_ + chr(34))!r} after JSON decoding): names containing it are altered")
 
     # ---- sinks (b): `</` neutralised after json.dumps; the placeholder sits in a <script> element
     good = [(a, b) for a, b in chain if a in ('<', '/', '</') and '</' not in b and b != a and a not in b]
